@@ -10,6 +10,7 @@ use snow::params::{
     HashChoice, NoiseParams, SUPPORTED_HANDSHAKE_PATTERNS,
 };
 use snow::verif::{self, HandshakeParts, Snapshot};
+use snow::types::{Cipher, Dh, Hash, Random};
 use snow::HandshakeState;
 
 pub fn snow_pat(p: Pat) -> snow::params::HandshakePattern {
@@ -75,37 +76,34 @@ fn dh_arr<const PL: usize>(a: &[u8; MAXDH]) -> [u8; verif::MAXDHLEN] {
     o
 }
 
-/// Build a real snow `HandshakeState` (free toy stubs, endpoint A ids) that is in the reference-model state `hs`.
-pub fn snow_from_rm_a<const HL: usize, const PL: usize, const DL: usize>(
-    hs: &Hs,
-    name: &str,
-    fixed_ephemeral: bool,
-) -> HandshakeState {
-    unsafe {
-        CKEY[0] = hs.sym.k;
-        let mut i = 0;
-        while i < PL {
-            DPRIV[0][i] = hs.s_priv[i];
-            DPUB[0][i] = hs.s_pub[i];
-            DPRIV[1][i] = hs.e_priv[i];
-            DPUB[1][i] = hs.e_pub[i];
-            i += 1;
-        }
-    }
+/// Primitive objects of one endpoint.
+pub struct Objs {
+    pub rng: Box<dyn Random>,
+    pub cipher: Box<dyn Cipher>,
+    pub hasher: Box<dyn Hash>,
+    pub cipher_i: Box<dyn Cipher>,
+    pub cipher_r: Box<dyn Cipher>,
+    pub s: Box<dyn Dh>,
+    pub e: Box<dyn Dh>,
+}
+
+/// Build a real snow `HandshakeState` that is in the reference-model state `hs`, over the given primitive
+/// objects (literal-constructor hook). The caller has already placed keys in the stubs' statics.
+pub fn snow_from_rm_with<const PL: usize>(hs: &Hs, name: &str, fixed_ephemeral: bool, o: Objs) -> HandshakeState {
     let parts = HandshakeParts {
-        rng: Box::new(SRng),
-        cipher: Box::new(SCipher::<0>),
+        rng: o.rng,
+        cipher: o.cipher,
         cipher_nonce: hs.sym.n,
         cipher_has_key: hs.sym.has_k,
-        hasher: Box::new(SHash::<HL, 0>),
+        hasher: o.hasher,
         h: hs.sym.h,
         ck: hs.sym.ck,
         has_key: hs.sym.has_k,
-        cipher_i: Box::new(SCipher::<1>),
-        cipher_r: Box::new(SCipher::<2>),
-        s: Box::new(SDh::<PL, DL, 0>),
+        cipher_i: o.cipher_i,
+        cipher_r: o.cipher_r,
+        s: o.s,
         s_on: hs.has_s,
-        e: Box::new(SDh::<PL, DL, 1>),
+        e: o.e,
         e_on: hs.has_e,
         fixed_ephemeral,
         rs: dh_arr::<PL>(&hs.rs),
@@ -121,7 +119,46 @@ pub fn snow_from_rm_a<const HL: usize, const PL: usize, const DL: usize>(
     verif::handshake_from_parts(parts).unwrap()
 }
 
-/// Same for endpoint B ids.
+fn load_dh<const PL: usize>(hs: &Hs, ids: Ids) {
+    unsafe {
+        let mut i = 0;
+        while i < PL {
+            DPRIV[ids.s][i] = hs.s_priv[i];
+            DPUB[ids.s][i] = hs.s_pub[i];
+            DPRIV[ids.e][i] = hs.e_priv[i];
+            DPUB[ids.e][i] = hs.e_pub[i];
+            i += 1;
+        }
+    }
+}
+
+/// Free toy stubs, endpoint A ids.
+pub fn snow_from_rm_a<const HL: usize, const PL: usize, const DL: usize>(
+    hs: &Hs,
+    name: &str,
+    fixed_ephemeral: bool,
+) -> HandshakeState {
+    unsafe {
+        CKEY[0] = hs.sym.k;
+    }
+    load_dh::<PL>(hs, EP_A);
+    snow_from_rm_with::<PL>(
+        hs,
+        name,
+        fixed_ephemeral,
+        Objs {
+            rng: Box::new(SRng),
+            cipher: Box::new(SCipher::<0>),
+            hasher: Box::new(SHash::<HL, 0>),
+            cipher_i: Box::new(SCipher::<1>),
+            cipher_r: Box::new(SCipher::<2>),
+            s: Box::new(SDh::<PL, DL, 0>),
+            e: Box::new(SDh::<PL, DL, 1>),
+        },
+    )
+}
+
+/// Free toy stubs, endpoint B ids.
 pub fn snow_from_rm_b<const HL: usize, const PL: usize, const DL: usize>(
     hs: &Hs,
     name: &str,
@@ -129,42 +166,42 @@ pub fn snow_from_rm_b<const HL: usize, const PL: usize, const DL: usize>(
 ) -> HandshakeState {
     unsafe {
         CKEY[3] = hs.sym.k;
-        let mut i = 0;
-        while i < PL {
-            DPRIV[2][i] = hs.s_priv[i];
-            DPUB[2][i] = hs.s_pub[i];
-            DPRIV[3][i] = hs.e_priv[i];
-            DPUB[3][i] = hs.e_pub[i];
-            i += 1;
-        }
     }
-    let parts = HandshakeParts {
-        rng: Box::new(SRng),
-        cipher: Box::new(SCipher::<3>),
-        cipher_nonce: hs.sym.n,
-        cipher_has_key: hs.sym.has_k,
-        hasher: Box::new(SHash::<HL, 1>),
-        h: hs.sym.h,
-        ck: hs.sym.ck,
-        has_key: hs.sym.has_k,
-        cipher_i: Box::new(SCipher::<4>),
-        cipher_r: Box::new(SCipher::<5>),
-        s: Box::new(SDh::<PL, DL, 2>),
-        s_on: hs.has_s,
-        e: Box::new(SDh::<PL, DL, 3>),
-        e_on: hs.has_e,
+    load_dh::<PL>(hs, EP_B);
+    snow_from_rm_with::<PL>(
+        hs,
+        name,
         fixed_ephemeral,
-        rs: dh_arr::<PL>(&hs.rs),
-        rs_on: hs.has_rs,
-        re: dh_arr::<PL>(&hs.re),
-        re_on: hs.has_re,
-        initiator: hs.initiator,
-        params: mk_params(name, hs.pat, hs.psk_mask),
-        psks: psk_opts(hs),
-        my_turn: (hs.pos % 2 == 0) == hs.initiator,
-        pattern_position: hs.pos,
-    };
-    verif::handshake_from_parts(parts).unwrap()
+        Objs {
+            rng: Box::new(SRng),
+            cipher: Box::new(SCipher::<3>),
+            hasher: Box::new(SHash::<HL, 1>),
+            cipher_i: Box::new(SCipher::<4>),
+            cipher_r: Box::new(SCipher::<5>),
+            s: Box::new(SDh::<PL, DL, 2>),
+            e: Box::new(SDh::<PL, DL, 3>),
+        },
+    )
+}
+
+/// Oracle / length-only stubs (O(1) in data length), endpoint A ids. Flags and toggles are the reference
+/// model's; hash values are irrelevant to what these harnesses assert.
+pub fn snow_from_rm_oracle<const PL: usize, const DL: usize>(hs: &Hs, name: &str, fixed_ephemeral: bool) -> HandshakeState {
+    load_dh::<PL>(hs, EP_A);
+    snow_from_rm_with::<PL>(
+        hs,
+        name,
+        fixed_ephemeral,
+        Objs {
+            rng: Box::new(SRng),
+            cipher: Box::new(OCipher::<0>),
+            hasher: Box::new(LHash::<8, 0>),
+            cipher_i: Box::new(OCipher::<1>),
+            cipher_r: Box::new(OCipher::<2>),
+            s: Box::new(SDh::<PL, DL, 0>),
+            e: Box::new(SDh::<PL, DL, 1>),
+        },
+    )
 }
 
 /// Compare a snow snapshot (+ the stub statics of endpoint `ids`) with a reference-model state.
